@@ -186,10 +186,12 @@ type Membership struct {
 	Committee CommitteeFn
 	Gate      Gate
 	// FailFirst makes the first k RequestOrderedCommittee calls fail (engine R only).
-	FailFirst     int
-	mu            sync.Mutex
-	Calls         int
-	CtxErrAtEntry int
+	FailFirst int
+	// FailProofCommittee makes RequestCommitteeForBlockProof fail (a committee service that is down while the caller's context lives).
+	FailProofCommittee bool
+	mu                 sync.Mutex
+	Calls              int
+	CtxErrAtEntry      int
 }
 
 func (m *Membership) MyMemberId() primitives.MemberId { return m.Me }
@@ -218,6 +220,9 @@ func (m *Membership) RequestOrderedCommittee(ctx context.Context, h primitives.B
 }
 
 func (m *Membership) RequestCommitteeForBlockProof(ctx context.Context, h primitives.BlockHeight, prevRef primitives.TimestampSeconds) ([]interfaces.CommitteeMember, error) {
+	if m.FailProofCommittee {
+		return nil, errors.New("committee service unavailable")
+	}
 	c := m.Committee(h)
 	// unordered: return reversed copy so nothing can rely on the order
 	out := make([]interfaces.CommitteeMember, len(c))
